@@ -21,9 +21,10 @@
 /* ------------------------------------------------------------------ */
 /* sanitizer plumbing                                                  */
 
-/* the only mutable global of the harness: sanitizer-coverage edge executions
- * since the last reset (meaningful without threads only) */
-unsigned long long vh_edge_counter;
+/* the only mutable "global" of the harness: sanitizer-coverage edge
+ * executions since the last reset; thread-local, so that --threads runs do
+ * not race on it */
+_Thread_local unsigned long long vh_edge_counter;
 
 void __sanitizer_cov_trace_pc_guard_init(uint32_t *start, uint32_t *stop) {
   static uint32_t n;
@@ -188,7 +189,11 @@ static void report_crash(const char *path, int status, const char *err, size_t e
     if (WIFSIGNALED(status)) snprintf(kind, sizeof kind, "signal:%d", WTERMSIG(status));
     else snprintf(kind, sizeof kind, "exit:%d", WEXITSTATUS(status));
   }
-  printf("CRASH kind=%s summary=%s\n", kind, summary ? summary : "-");
+  if (summary) {                       /* trim trailing blanks */
+    size_t sl = strlen(summary);
+    while (sl && (summary[sl - 1] == ' ' || summary[sl - 1] == '\t')) summary[--sl] = 0;
+  }
+  printf("CRASH kind=%s summary=%s\n", kind, (summary && *summary) ? summary : "-");
   fflush(stdout);
   free(summary);
   if (asprintf(&spath, "%s.stderr", path) >= 0) {
